@@ -77,3 +77,29 @@ def attach_reasm_to_c16():
 
 
 attach_reasm_to_c16()
+
+
+# C08 covers the glue between the recovery manager and the ACK manager ("including lost ACKs"): the
+# manager driver of the C09 family, judged only on what it reports to the Context as acknowledged
+# (RecoveryAcks.judge_acks; props/C08_acks.v).  The C09 findings (loss time threshold) cannot fail this
+# judgement: it ignores losses, timestamps and the congestion-controller ledger.
+def attach_manager_acks_to_c08():
+    c09 = registry.PROPS.get("C09")
+    c08 = registry.PROPS.get("C08")
+    if not c09 or not c08:
+        return
+    for comp in c09["components"]:
+        if comp["name"] == "manager":
+            c = dict(comp)
+            c["name"] = "manager_acks"
+            c["harness"] = ("h_transport", "C09")
+            c["ocaml"] = "C09"
+            c["quick"] = min(c.get("quick", 4000), 4000)
+            c["thorough"] = min(c.get("thorough", 50000), 50000)
+            c08["components"] = list(c08["components"]) + [c]
+    c08["extra_props_files"] = list(c08.get("extra_props_files", [])) + ["props/C08_acks.v"]
+    c08["gen"] = list(c08["gen"]) + [g for g in c09["gen"] if g not in c08["gen"]]
+    c08["trusted_base"] = list(c08.get("trusted_base", [])) + ["harness/h_transport/src/bin/C09.rs (manager driver, recording Context) + hook recovery.rs"]
+
+
+attach_manager_acks_to_c08()
